@@ -1,1 +1,552 @@
-fn main() { eprintln!("not built yet"); std::process::exit(2); }
+//! dv-kv: replays TLC-generated behaviours of spec/KV.tla into the REAL FileStateMachine and
+//! RocksDBStateMachine of d-engine and records what the real code shows after every step.
+//! The judging is done by TLC (spec/KVTrace.tla); this binary contains no reference semantics.
+//!
+//! usage: dv-kv replay --schedules <ndjson> --out <ndjson> --scratch <dir> [--jobs N]
+//!
+//! schedules file: first line {"hdr": {"keys": [[..]..], "prefixes": [[..]..], "tick_ms": n}},
+//! then one behaviour per line {"id": "...", "eng": "file"|"rocks", "steps": [step..]}.
+use std::collections::VecDeque;
+use std::io::Write;
+use std::panic::AssertUnwindSafe;
+use std::path::{Path, PathBuf};
+use std::sync::atomic::AtomicUsize;
+use std::sync::{Arc, Mutex};
+use std::time::{Duration, Instant};
+
+use bytes::Bytes;
+use d_engine_core::config::LeaseConfig;
+use d_engine_core::{
+    ApplyEntry, Command, DefaultStateMachineHandler, LogSizePolicy, SnapshotConfig, StateMachine,
+    StateMachineHandler,
+};
+use d_engine_proto::server::storage::SnapshotMetadata;
+use d_engine_server::node::RaftTypeConfig;
+use d_engine_server::storage::{TtlLease, verif_kv_points};
+use d_engine_server::{FileStateMachine, FileStorageEngine, RocksDBStateMachine, RocksDBStorageEngine};
+use futures::FutureExt;
+use serde_json::{Value, json};
+
+type FileTc = RaftTypeConfig<FileStorageEngine, FileStateMachine>;
+type RocksTc = RaftTypeConfig<RocksDBStorageEngine, RocksDBStateMachine>;
+
+#[derive(Clone)]
+enum Sm {
+    File(Arc<FileStateMachine>),
+    Rocks(Arc<RocksDBStateMachine>),
+}
+
+impl Sm {
+    fn d(&self) -> Arc<dyn StateMachine> {
+        match self {
+            Sm::File(s) => s.clone(),
+            Sm::Rocks(s) => s.clone(),
+        }
+    }
+}
+
+fn bytes_of(v: &Value) -> Vec<u8> {
+    v.as_array().map(|a| a.iter().map(|x| x.as_i64().unwrap_or(0) as u8).collect()).unwrap_or_default()
+}
+fn is_absent(v: &Value) -> bool {
+    v.as_array().map(|a| a.len() == 1 && a[0].as_i64() == Some(-1)).unwrap_or(true)
+}
+fn enc(b: &[u8]) -> Value {
+    Value::Array(b.iter().map(|x| json!(*x as i64)).collect())
+}
+fn enc_opt(b: &Option<Bytes>) -> Value {
+    match b {
+        Some(b) => enc(b),
+        None => json!([-1]),
+    }
+}
+
+/// seconds per TTL unit of the schedules (header field ttl_s)
+static TTL_S: std::sync::atomic::AtomicU64 = std::sync::atomic::AtomicU64::new(2);
+
+fn to_command(c: &Value) -> Command {
+    let key = Bytes::from(bytes_of(&c["k"]));
+    match c["op"].as_str().unwrap_or("") {
+        "put" => {
+            let ttl = c["ttl"].as_u64().unwrap_or(0) * TTL_S.load(std::sync::atomic::Ordering::Relaxed);
+            Command::Insert { key, value: Bytes::from(bytes_of(&c["v"])), ttl_secs: if ttl == 0 { None } else { Some(ttl) } }
+        }
+        "del" => Command::Delete { key },
+        "cas" => Command::CompareAndSwap {
+            key,
+            expected: if is_absent(&c["e"]) { None } else { Some(Bytes::from(bytes_of(&c["e"]))) },
+            value: Bytes::from(bytes_of(&c["v"])),
+        },
+        _ => Command::Noop,
+    }
+}
+
+fn copy_dir(src: &Path, dst: &Path) -> std::io::Result<()> {
+    std::fs::create_dir_all(dst)?;
+    for e in std::fs::read_dir(src)? {
+        let e = e?;
+        let p = e.path();
+        let q = dst.join(e.file_name());
+        if e.file_type()?.is_dir() {
+            copy_dir(&p, &q)?;
+        } else {
+            std::fs::copy(&p, &q)?;
+        }
+    }
+    Ok(())
+}
+
+struct Hdr {
+    keys: Vec<Vec<u8>>,
+    prefixes: Vec<Vec<u8>>,
+    tick_ms: u64,
+}
+
+struct Run<'a> {
+    hdr: &'a Hdr,
+    eng: String,
+    root: PathBuf,
+    generation: usize,
+    dir: PathBuf,
+    sm: Option<Sm>,
+    log: Vec<Value>, // committed commands, index i+1
+    snap: Option<(SnapshotMetadata, PathBuf)>,
+    start: Instant,
+    tick: u64,
+}
+
+async fn open(eng: &str, dir: &Path) -> Result<Sm, String> {
+    let lease = Arc::new(TtlLease::new(LeaseConfig::default()));
+    let sm = if eng == "file" {
+        let mut s = FileStateMachine::new(dir.to_path_buf()).await.map_err(|e| format!("open: {e:?}"))?;
+        s.set_lease(lease);
+        Sm::File(Arc::new(s))
+    } else {
+        let mut s = RocksDBStateMachine::new(dir).map_err(|e| format!("open: {e:?}"))?;
+        s.set_lease(lease);
+        Sm::Rocks(Arc::new(s))
+    };
+    sm.d().start().await.map_err(|e| format!("start: {e:?}"))?;
+    Ok(sm)
+}
+
+impl<'a> Run<'a> {
+    fn sm(&self) -> Sm {
+        self.sm.clone().expect("engine instance")
+    }
+
+    fn next_dir(&mut self) -> PathBuf {
+        self.generation += 1;
+        self.root.join(format!("g{}", self.generation))
+    }
+
+    fn entries(&self, first_index: u64, cmds: &[Value]) -> Vec<ApplyEntry> {
+        cmds.iter()
+            .enumerate()
+            .map(|(i, c)| ApplyEntry { index: first_index + i as u64, term: 1, command: to_command(c) })
+            .collect()
+    }
+
+    fn scan_json(sm: &Arc<dyn StateMachine>, p: &[u8]) -> Value {
+        match sm.scan_prefix(p) {
+            Ok(r) => json!({"e": r.entries.iter().map(|(k, v)| json!([enc(k), enc(v)])).collect::<Vec<_>>(), "rev": r.revision}),
+            Err(e) => json!({"e": [], "rev": -1, "err": format!("{e:?}")}),
+        }
+    }
+
+    fn observe(&self) -> Value {
+        let sm = self.sm().d();
+        let mut errs: Vec<String> = vec![];
+        let get: Vec<Value> = self
+            .hdr
+            .keys
+            .iter()
+            .map(|k| match sm.get(k) {
+                Ok(v) => enc_opt(&v),
+                Err(e) => {
+                    errs.push(format!("get: {e:?}"));
+                    json!([-2])
+                }
+            })
+            .collect();
+        let keys: Vec<Bytes> = self.hdr.keys.iter().map(|k| Bytes::from(k.clone())).collect();
+        let multi: Value = match sm.get_multi(&keys) {
+            Ok(v) => Value::Array(v.iter().map(enc_opt).collect()),
+            Err(e) => {
+                errs.push(format!("get_multi: {e:?}"));
+                json!([])
+            }
+        };
+        let scan: Vec<Value> = self.hdr.prefixes.iter().map(|p| Self::scan_json(&sm, p)).collect();
+        json!({"get": get, "multi": multi, "scan": scan, "applied": sm.last_applied().index, "len": sm.len(), "errs": errs})
+    }
+
+    /// process-crash semantics: everything written so far survives; the instance is abandoned
+    /// (its Drop writes only into the abandoned directory) and a fresh instance opens the copy.
+    async fn restart_on(&mut self, copy: PathBuf) -> Result<(), String> {
+        self.sm = None; // abandoned instance dropped here, after the copy was taken
+        self.dir = copy;
+        self.sm = Some(open(&self.eng, &self.dir).await?);
+        Ok(())
+    }
+
+    async fn apply_plain(&mut self, first: u64, cmds: &[Value]) -> Result<Value, String> {
+        let ents = self.entries(first, cmds);
+        let res = self.sm().d().apply_chunk(&ents).await.map_err(|e| format!("apply_chunk: {e:?}"))?;
+        Ok(json!({"flags": res.iter().map(|r| r.succeeded).collect::<Vec<_>>(),
+                  "idx": res.iter().map(|r| r.index).collect::<Vec<_>>()}))
+    }
+
+    /// runs `fut`-producing operation with a crash point: the data directory is copied when the
+    /// engine reaches `site`; afterwards the copy is reopened with a fresh instance.
+    fn arm_crash(&mut self, site: String) -> (PathBuf, Arc<Mutex<Option<String>>>) {
+        let copy = self.next_dir();
+        let src = self.dir.clone();
+        let dst = copy.clone();
+        let state: Arc<Mutex<Option<String>>> = Arc::new(Mutex::new(None));
+        let st2 = state.clone();
+        verif_kv_points::set(Some(Box::new(move |s: &'static str| {
+            if s == site && st2.lock().unwrap().is_none() {
+                let r = copy_dir(&src, &dst);
+                *st2.lock().unwrap() = Some(match r {
+                    Ok(()) => "ok".to_string(),
+                    Err(e) => format!("TOOL: copy failed: {e}"),
+                });
+            }
+        })));
+        (copy, state)
+    }
+
+    async fn step(&mut self, st: &Value) -> Result<Value, String> {
+        let t = st["t"].as_str().unwrap_or("");
+        let mut out = json!({});
+        match t {
+            "init" => {}
+            "apply" => {
+                let cmds: Vec<Value> = st["cmds"].as_array().cloned().unwrap_or_default();
+                let first = self.log.len() as u64 + 1;
+                self.log.extend(cmds.iter().cloned());
+                if let Some(site) = st["crashat"].as_str() {
+                    let (copy, state) = self.arm_crash(site.to_string());
+                    let r = self.apply_plain(first, &cmds).await;
+                    verif_kv_points::set(None);
+                    out = r?;
+                    let hit = state.lock().unwrap().clone();
+                    match hit {
+                        Some(s) if s == "ok" => {
+                            self.restart_on(copy).await?;
+                            out["crashed"] = json!(true);
+                        }
+                        Some(s) => return Err(s),
+                        None => out["crashed"] = json!(false), // point not reached on this engine
+                    }
+                } else {
+                    out = self.apply_plain(first, &cmds).await?;
+                }
+            }
+            "ckpt" => {
+                if let Some(site) = st["crashat"].as_str() {
+                    let (copy, state) = self.arm_crash(site.to_string());
+                    let r = self.sm().d().flush_async().await;
+                    verif_kv_points::set(None);
+                    r.map_err(|e| format!("flush_async: {e:?}"))?;
+                    let hit = state.lock().unwrap().clone();
+                    match hit {
+                        Some(s) if s == "ok" => {
+                            self.restart_on(copy).await?;
+                            out["crashed"] = json!(true);
+                        }
+                        Some(s) => return Err(s),
+                        None => out["crashed"] = json!(false),
+                    }
+                } else {
+                    self.sm().d().flush_async().await.map_err(|e| format!("flush_async: {e:?}"))?;
+                }
+            }
+            "crash" => {
+                let copy = self.next_dir();
+                copy_dir(&self.dir, &copy).map_err(|e| format!("TOOL: copy: {e}"))?;
+                self.restart_on(copy).await?;
+                out["crashed"] = json!(true);
+            }
+            "stop" => {
+                // graceful: stop() then drop, reopen the same directory
+                self.sm().d().stop().map_err(|e| format!("stop: {e:?}"))?;
+                self.sm = None;
+                self.sm = Some(open(&self.eng, &self.dir).await?);
+            }
+            "reapply" | "replay" => {
+                // what the Raft layer does after a restart / snapshot install: deliver the committed
+                // entries above the index the state machine reports
+                let r = self.sm().d().last_applied().index as usize;
+                let n = self.log.len();
+                let mode = st["mode"].as_str().unwrap_or("one");
+                let mut flags: Vec<Value> = vec![];
+                out["from"] = json!(r + 1);
+                if r < n {
+                    let cmds: Vec<Value> = self.log[r..n].to_vec();
+                    if mode == "each" {
+                        for (i, c) in cmds.iter().enumerate() {
+                            let o = self.apply_plain((r + 1 + i) as u64, std::slice::from_ref(c)).await?;
+                            flags.extend(o["flags"].as_array().cloned().unwrap_or_default());
+                        }
+                    } else {
+                        let o = self.apply_plain((r + 1) as u64, &cmds).await?;
+                        flags = o["flags"].as_array().cloned().unwrap_or_default();
+                    }
+                }
+                out["flags"] = Value::Array(flags);
+            }
+            "scanc" => {
+                // a scan and an apply of the next entries overlapping at the engine's window `w`
+                let cmds: Vec<Value> = st["cmds"].as_array().cloned().unwrap_or_default();
+                let first = self.log.len() as u64 + 1;
+                self.log.extend(cmds.iter().cloned());
+                let prefix = bytes_of(&st["p"]);
+                let w = st["w"].as_str().unwrap_or("").to_string();
+                let ents = self.entries(first, &cmds);
+                let sm = self.sm().d();
+                let slot: Arc<Mutex<Option<Value>>> = Arc::new(Mutex::new(None));
+                if w == "rocks.scan.after_iter" {
+                    // the apply happens inside the scan's window
+                    let sm2 = sm.clone();
+                    let slot2 = slot.clone();
+                    verif_kv_points::set(Some(Box::new(move |s: &'static str| {
+                        if s == "rocks.scan.after_iter" && slot2.lock().unwrap().is_none() {
+                            let r = futures::executor::block_on(sm2.apply_chunk(&ents));
+                            *slot2.lock().unwrap() = Some(match r {
+                                Ok(res) => json!({"flags": res.iter().map(|r| r.succeeded).collect::<Vec<_>>()}),
+                                Err(e) => json!({"err": format!("{e:?}")}),
+                            });
+                        }
+                    })));
+                    let sc = Self::scan_json(&sm, &prefix);
+                    verif_kv_points::set(None);
+                    let inner = slot.lock().unwrap().clone();
+                    match inner {
+                        Some(v) => {
+                            if let Some(e) = v.get("err") {
+                                return Err(format!("apply in scan window: {e}"));
+                            }
+                            out["flags"] = v["flags"].clone();
+                            out["win"] = json!(true);
+                        }
+                        None => {
+                            // window not reached (e.g. empty-prefix fast path): apply afterwards
+                            let o = self.apply_plain(first, &cmds).await?;
+                            out["flags"] = o["flags"].clone();
+                            out["win"] = json!(false);
+                        }
+                    }
+                    out["sc"] = sc;
+                } else {
+                    // the scan happens inside the apply's window
+                    let sm2 = sm.clone();
+                    let slot2 = slot.clone();
+                    let w2 = w.clone();
+                    verif_kv_points::set(Some(Box::new(move |s: &'static str| {
+                        if s == w2 && slot2.lock().unwrap().is_none() {
+                            *slot2.lock().unwrap() = Some(Self::scan_json(&sm2, &prefix));
+                        }
+                    })));
+                    let r = self.apply_plain(first, &cmds).await;
+                    verif_kv_points::set(None);
+                    let o = r?;
+                    out["flags"] = o["flags"].clone();
+                    let inner = slot.lock().unwrap().clone();
+                    match inner {
+                        Some(v) => {
+                            out["sc"] = v;
+                            out["win"] = json!(true);
+                        }
+                        None => {
+                            out["sc"] = Self::scan_json(&sm, &bytes_of(&st["p"]));
+                            out["win"] = json!(false);
+                        }
+                    }
+                }
+            }
+            "snap" => {
+                let retained = st["retained"].as_u64().unwrap_or(1);
+                let sdir = self.root.join(format!("snaps{}", self.generation));
+                std::fs::create_dir_all(&sdir).map_err(|e| e.to_string())?;
+                let mut cfg = SnapshotConfig::default();
+                cfg.enable = true;
+                cfg.retained_log_entries = retained;
+                cfg.snapshots_dir = sdir.clone();
+                let applied = self.sm().d().last_applied().index;
+                let pol = LogSizePolicy::new(1000, Duration::from_secs(0));
+                let cnt = Arc::new(AtomicUsize::new(0));
+                // the label is computed by the real DefaultStateMachineHandler::create_snapshot, which
+                // calls the engine's generate_snapshot_data
+                let (meta, _archive) = match self.sm() {
+                    Sm::File(s) => DefaultStateMachineHandler::<FileTc>::new(1, applied, s, cfg, pol, None, cnt)
+                        .create_snapshot()
+                        .await,
+                    Sm::Rocks(s) => DefaultStateMachineHandler::<RocksTc>::new(1, applied, s, cfg, pol, None, cnt)
+                        .create_snapshot()
+                        .await,
+                }
+                .map_err(|e| format!("create_snapshot: {e:?}"))?;
+                // create_snapshot keeps only the compressed archive; the directory form needed by
+                // apply_snapshot_from_file is produced by the same engine call with the same label
+                let li = meta.last_included.ok_or("snapshot without last_included")?;
+                let ddir = self.root.join(format!("snapdir{}", self.generation));
+                self.sm().d().generate_snapshot_data(ddir.clone(), li).await.map_err(|e| format!("generate_snapshot_data: {e:?}"))?;
+                out["label"] = json!(li.index);
+                self.snap = Some((meta, ddir));
+            }
+            "install" => {
+                let (meta, ddir) = self.snap.clone().ok_or("no snapshot")?;
+                // a different node: fresh, empty engine instance
+                let nd = self.next_dir();
+                self.sm = None;
+                self.dir = nd;
+                std::fs::create_dir_all(&self.dir).map_err(|e| e.to_string())?;
+                self.sm = Some(open(&self.eng, &self.dir).await?);
+                // the engines consume (hard-link / move) the files: install from a private copy
+                let priv_copy = self.next_dir();
+                copy_dir(&ddir, &priv_copy).map_err(|e| format!("TOOL: copy: {e}"))?;
+                self.sm().d().apply_snapshot_from_file(&meta, priv_copy).await.map_err(|e| format!("apply_snapshot_from_file: {e:?}"))?;
+                out["label"] = json!(meta.last_included.map(|l| l.index).unwrap_or(0));
+            }
+            "tick" => {
+                self.tick += 1;
+                let target = Duration::from_millis(self.tick * self.hdr.tick_ms);
+                let el = self.start.elapsed();
+                if target > el {
+                    tokio::time::sleep(target - el).await;
+                }
+            }
+            "cleanup" => {
+                let r = self.sm().d().lease_background_cleanup().await.map_err(|e| format!("cleanup: {e:?}"))?;
+                out["removed"] = Value::Array(r.iter().map(|k| enc(k)).collect());
+            }
+            other => return Err(format!("TOOL: unknown step {other}")),
+        }
+        Ok(out)
+    }
+}
+
+async fn run_behaviour(hdr: &Hdr, b: &Value, scratch: &Path) -> Vec<Value> {
+    let id = b["id"].as_str().unwrap_or("?").to_string();
+    let eng = b["eng"].as_str().unwrap_or("file").to_string();
+    let root = scratch.join(id.replace('/', "_"));
+    let _ = std::fs::remove_dir_all(&root);
+    let mut recs = vec![];
+    let mut run = Run {
+        hdr,
+        eng: eng.clone(),
+        root: root.clone(),
+        generation: 0,
+        dir: root.join("g0"),
+        sm: None,
+        log: vec![],
+        snap: None,
+        start: Instant::now(),
+        tick: 0,
+    };
+    let mk = |i: usize, a: Value, res: Value, obs: Value, run: &Run| -> Value {
+        let within = run.start.elapsed().as_millis() as i64 - (run.tick * hdr.tick_ms) as i64;
+        json!({"id": id, "eng": eng, "i": i, "a": a, "res": res, "obs": obs, "tick": run.tick, "ms": within})
+    };
+    let _ = std::fs::create_dir_all(&run.dir);
+    match open(&eng, &run.dir).await {
+        Ok(sm) => run.sm = Some(sm),
+        Err(e) => {
+            recs.push(json!({"id": id, "eng": eng, "i": 0, "a": {"t": "init"}, "res": {"err": e}, "obs": {}, "tick": 0, "ms": 0}));
+            return recs;
+        }
+    }
+    run.start = Instant::now();
+    recs.push(mk(0, json!({"t": "init"}), json!({}), run.observe(), &run));
+    let steps = b["steps"].as_array().cloned().unwrap_or_default();
+    for (i, st) in steps.iter().enumerate() {
+        let r = AssertUnwindSafe(run.step(st)).catch_unwind().await;
+        verif_kv_points::set(None);
+        match r {
+            Ok(Ok(res)) => {
+                let obs = match std::panic::catch_unwind(AssertUnwindSafe(|| run.observe())) {
+                    Ok(o) => o,
+                    Err(_) => {
+                        recs.push(mk(i + 1, st.clone(), json!({"err": "panic in observation"}), json!({}), &run));
+                        break;
+                    }
+                };
+                recs.push(mk(i + 1, st.clone(), res, obs, &run));
+            }
+            Ok(Err(e)) => {
+                let key = if e.starts_with("TOOL:") { "toolerr" } else { "err" };
+                recs.push(mk(i + 1, st.clone(), json!({key: e}), json!({}), &run));
+                break;
+            }
+            Err(p) => {
+                let msg = p.downcast_ref::<String>().cloned().or_else(|| p.downcast_ref::<&str>().map(|s| s.to_string())).unwrap_or_default();
+                recs.push(mk(i + 1, st.clone(), json!({"err": format!("panic: {msg}")}), json!({}), &run));
+                break;
+            }
+        }
+    }
+    run.sm = None;
+    drop(run);
+    let _ = std::fs::remove_dir_all(&root);
+    recs
+}
+
+fn arg(args: &[String], name: &str) -> Option<String> {
+    args.iter().position(|a| a == name).and_then(|i| args.get(i + 1).cloned())
+}
+
+fn main() {
+    let args: Vec<String> = std::env::args().collect();
+    if args.get(1).map(|s| s.as_str()) != Some("replay") {
+        eprintln!("usage: dv-kv replay --schedules <ndjson> --out <ndjson> --scratch <dir> [--jobs N]");
+        std::process::exit(2);
+    }
+    let sched = arg(&args, "--schedules").expect("--schedules");
+    let outp = arg(&args, "--out").expect("--out");
+    let scratch = PathBuf::from(arg(&args, "--scratch").expect("--scratch"));
+    let jobs: usize = arg(&args, "--jobs").and_then(|s| s.parse().ok()).unwrap_or(4);
+    std::panic::set_hook(Box::new(|_| {})); // panics of the code under test are recorded as data
+    let text = std::fs::read_to_string(&sched).expect("read schedules");
+    let mut lines = text.lines().filter(|l| !l.trim().is_empty());
+    let h: Value = serde_json::from_str(lines.next().expect("header line")).expect("header json");
+    let hdr = Arc::new(Hdr {
+        keys: h["hdr"]["keys"].as_array().map(|a| a.iter().map(bytes_of).collect()).unwrap_or_default(),
+        prefixes: h["hdr"]["prefixes"].as_array().map(|a| a.iter().map(bytes_of).collect()).unwrap_or_default(),
+        tick_ms: h["hdr"]["tick_ms"].as_u64().unwrap_or(4000),
+    });
+    TTL_S.store(h["hdr"]["ttl_s"].as_u64().unwrap_or(2), std::sync::atomic::Ordering::Relaxed);
+    let queue: Arc<Mutex<VecDeque<(usize, Value)>>> = Arc::new(Mutex::new(
+        lines.enumerate().map(|(i, l)| (i, serde_json::from_str::<Value>(l).expect("schedule json"))).collect(),
+    ));
+    let total = queue.lock().unwrap().len();
+    let results: Arc<Mutex<Vec<Option<Vec<Value>>>>> = Arc::new(Mutex::new(vec![None; total]));
+    std::fs::create_dir_all(&scratch).expect("scratch");
+    let mut handles = vec![];
+    for _ in 0..jobs.max(1) {
+        let q = queue.clone();
+        let res = results.clone();
+        let hdr = hdr.clone();
+        let scratch = scratch.clone();
+        handles.push(std::thread::spawn(move || {
+            let rt = tokio::runtime::Builder::new_current_thread().enable_all().build().expect("rt");
+            loop {
+                let item = q.lock().unwrap().pop_front();
+                let Some((i, b)) = item else { break };
+                let recs = rt.block_on(run_behaviour(&hdr, &b, &scratch));
+                res.lock().unwrap()[i] = Some(recs);
+            }
+        }));
+    }
+    for h in handles {
+        h.join().expect("worker");
+    }
+    let mut f = std::io::BufWriter::new(std::fs::File::create(&outp).expect("out"));
+    for r in results.lock().unwrap().iter() {
+        for rec in r.as_ref().expect("behaviour result") {
+            writeln!(f, "{}", rec).unwrap();
+        }
+    }
+    f.flush().unwrap();
+}
